@@ -48,6 +48,9 @@ namespace net
     check_n1();
     if (stop)
       return;
+    check_listening();
+    if (stop)
+      return;
     if (queue_clean)
     {
       check_n3();
@@ -92,6 +95,27 @@ namespace net
         snaps.resize(level + 1);
       }
     }
+  }
+
+  // N10: propagation at root level forgets the theories bound to the literal it has just processed ("this variable will no more
+  // be assigned"). That is only right for a literal that really is assigned at root level: a literal of a theory that is still
+  // unassigned, or assigned above root level, must still reach its theory the next time it changes.
+  void Run::check_listening()
+  {
+    if (!(enabled & O_N10))
+      return;
+    auto one = [this](smt::var v, const char *th)
+    {
+      if (stop || (sat->value(v) != smt::Undefined && sat->level[v] == 0))
+        return;
+      cnt.inc("listening_checks");
+      if (!sat->bounds.count(v))
+        viol(O_N10, "N10", std::string("N10.theory_not_listening.") + th, "b" + std::to_string(v) + " is a literal of the " + th + " theory, it is " + (sat->value(v) == smt::Undefined ? "unassigned" : "assigned above root level") + ", but no theory is bound to it any more: its next change will not reach the theory");
+    };
+    for (auto &p : lra_atoms)
+      one(p.first, "lra");
+    for (auto &p : dl_edges)
+      one(p.first, p.second.th == IDL ? "idl" : "rdl");
   }
 
   void Run::take_snapshot()
@@ -620,6 +644,16 @@ namespace net
         return;
       }
     }
+    for (auto &gd : guards)
+      if (gd.defined && sat->value(gd.g) == smt::True)
+      {
+        int a = eval(gd.atom, ok);
+        if (a == 0)
+        {
+          viol(O_N6, "N6", "N6.lra.value_violates_client_bound", "the client bound " + f_text(gd.atom) + " imposed under b" + std::to_string(gd.g) + " (true) is violated by the reported value x" + std::to_string(gd.x) + "=" + str(lra_value(gd.x)));
+          return;
+        }
+      }
     for (size_t v = 0; v < lra_defs.size(); ++v)
     {
       if (lra_defs[v].first)
@@ -673,6 +707,9 @@ namespace net
           else if (v == smt::False)
             tmp.add(!z.zf(p.second));
         }
+        for (auto &gd : guards)
+          if (gd.defined && sat->value(gd.g) == smt::True)
+            tmp.add(z.zf(gd.atom));
         for (size_t v = 0; v < lra_defs.size(); ++v)
           if (lra_defs[v].first)
           {
